@@ -155,6 +155,7 @@ type c06Outcome struct {
 //	2: A global, B destination block of r1
 //	3: A in global + source + destination block of r1 (same instance)
 //	4: A destination block of r1, B destination block of r2
+//	5: A and B global; 6: A and B in the destination block of r1
 func c06Run(shape int, lmtp bool, vA, vB [4]int) c06Outcome {
 	A := &c06Check{name: "A", verdict: vA}
 	B := &c06Check{name: "B", verdict: vB}
@@ -181,6 +182,10 @@ func c06Run(shape int, lmtp bool, vA, vB [4]int) c06Outcome {
 	case 4:
 		b1.checks = []module.Check{A}
 		b2.checks = []module.Check{B}
+	case 5: // two checks in the same (global) block
+		cfg.globalChecks = []module.Check{A, B}
+	case 6: // two checks in the same destination block
+		b1.checks = []module.Check{A, B}
 	}
 	cfg.defaultSource = src
 	d := MsgPipeline{msgpipelineCfg: cfg, Log: log.Logger{}, Hostname: "mx.example.org"}
@@ -242,7 +247,11 @@ func c06Run(shape int, lmtp bool, vA, vB [4]int) c06Outcome {
 func harness_C06_checks() {
 	shape := verifParam("shape", 0)
 	var vA, vB [4]int
+	only := verifParam("stage", -1) // -1: the verdicts of all stages are symbolic; k: only stage k
 	for s := 0; s < 4; s++ {
+		if only >= 0 && s != only {
+			continue
+		}
 		vA[s] = nondetInt(fmt.Sprintf("A.stage%d", s), 0, 3)
 		vB[s] = nondetInt(fmt.Sprintf("B.stage%d", s), 0, 3)
 	}
@@ -250,14 +259,14 @@ func harness_C06_checks() {
 	out := c06Run(shape, lmtp, vA, vB)
 
 	// ---- which checks apply where ----
-	usesB := shape == 1 || shape == 2 || shape == 4
-	aGlobal := shape <= 3
+	usesB := shape == 1 || shape == 2 || shape >= 4
+	aGlobal := shape <= 3 || shape == 5
 	// verdicts applicable to the connection/sender stage (global + source scope)
 	var early [][4]int
 	if aGlobal {
 		early = append(early, vA)
 	}
-	if shape == 1 {
+	if shape == 1 || shape == 5 {
 		early = append(early, vB)
 	}
 	// per recipient (index 0: r1, 1: r2): verdict vectors of the checks in scope
@@ -271,6 +280,8 @@ func harness_C06_checks() {
 	case 4:
 		scope[0] = append(scope[0], vA)
 		scope[1] = append(scope[1], vB)
+	case 6:
+		scope[0] = append(scope[0], vA, vB)
 	}
 	has := func(vs [][4]int, stage, verdict int) bool {
 		r := false
@@ -377,6 +388,10 @@ func harness_C06_checks() {
 		inBodyScope["A"] = true
 	case 4:
 		inBodyScope["A"], inBodyScope["B"] = !out.rcptErr[0], !out.rcptErr[1]
+	case 5:
+		inBodyScope["A"], inBodyScope["B"] = true, true
+	case 6:
+		inBodyScope["A"], inBodyScope["B"] = !out.rcptErr[0], !out.rcptErr[0]
 	}
 	for _, c := range out.checks {
 		if c.name == "B" && !usesB {
@@ -390,7 +405,11 @@ func harness_C06_checks() {
 				verifLog("check", c.name, "conn", s.conn)
 				verifFail("C06.connection-stage-not-exactly-once")
 			}
-			if s.sender > 1 || (s.sender == 0 && c.verdict[stConn] != vReject) {
+			connRejected := c.verdict[stConn] == vReject
+			if shape >= 5 && (vA[stConn] == vReject || vB[stConn] == vReject) {
+				connRejected = true // a co-located check refused at the connection stage
+			}
+			if s.sender > 1 || (s.sender == 0 && !connRejected) {
 				verifLog("check", c.name, "sender", s.sender)
 				verifFail("C06.sender-stage-not-exactly-once")
 			}
